@@ -211,7 +211,7 @@ Definition run_zmq_case (l : list Z) : list Z :=
   end.
 
 (* first integer selects the sub-model: 0 = SelectEventLoop, 1 = ZMQEventLoop *)
-Definition run_case (l : list Z) : list Z :=
+Definition run_case01 (l : list Z) : list Z :=
   match l with
   | 0 :: r => run_select_case r
   | 1 :: r => run_zmq_case r
